@@ -263,6 +263,8 @@ class Exec:
         self.next_id = itertools.count(1)
         self.fname = "?"
         self.site = 0
+        self.frames = []
+        self.entry_scope = {}
 
     # ------------------------------------------------------------ state helpers
     def fresh(self, base, sort=INT):
@@ -429,7 +431,7 @@ class Exec:
             return ExcClsV(name)
         if name in ("len", "min", "max", "abs", "int", "bool", "range", "bytes", "bytearray",
                     "memoryview", "tuple", "list", "isinstance", "print", "str", "repr", "pow",
-                    "all", "any", "implies", "sum", "object", "super", "cast", "ord", "chr", "sorted"):
+                    "all", "any", "implies", "trigger", "sum", "object", "super", "cast", "ord", "chr", "sorted"):
             return BuiltinV(name)
         raise Unsupported(f"unknown name {name} in {self.fname}")
 
@@ -529,22 +531,28 @@ class Exec:
             return self.as_int(v)
         raise Unsupported("unary op")
 
+    def guarded(self, guard, thunk):
+        """Evaluate thunk() with `guard` assumed; facts learnt meanwhile (callee posts, find...)
+        are kept as implications guard => fact."""
+        base = len(self.pc)
+        self.pc.append(guard)
+        try:
+            v = thunk()
+            learnt = self.pc[base + 1:]
+        finally:
+            del self.pc[base:]
+        for f in learnt:
+            self.pc.append(z3.Implies(guard, f))
+        return v
+
     def ev_BoolOp(self, node, fr):
         is_and = isinstance(node.op, ast.And)
         terms = []
-        saved = len(self.pc)
-        try:
-            for e in node.values:
-                v = self.ev(e, fr)
-                t = self.truth(v) if not is_bool(v) else v
-                if not is_bool(v) and not (v is NONE):
-                    # value-returning and/or is outside the fragment unless boolean
-                    if not is_bool(t):
-                        raise Unsupported("non-boolean and/or")
-                terms.append(t)
-                self.pc.append(t if is_and else z3.Not(t))   # short-circuit guard for later operands
-        finally:
-            del self.pc[saved:]
+        for e in node.values:
+            guard = z3.And(*[t if is_and else z3.Not(t) for t in terms]) if terms else z3.BoolVal(True)
+            v = self.guarded(guard, lambda e=e: self.ev(e, fr))     # short-circuit guard
+            t = v if is_bool(v) else self.truth(v)
+            terms.append(t)
         return simp(z3.And(*terms) if is_and else z3.Or(*terms))
 
     def ev_IfExp(self, node, fr):
@@ -554,16 +562,8 @@ class Exec:
             return self.ev(node.body, fr)
         if z3.is_false(sc):
             return self.ev(node.orelse, fr)
-        self.pc.append(c)
-        try:
-            a = self.ev(node.body, fr)
-        finally:
-            self.pc.pop()
-        self.pc.append(z3.Not(c))
-        try:
-            b = self.ev(node.orelse, fr)
-        finally:
-            self.pc.pop()
+        a = self.guarded(c, lambda: self.ev(node.body, fr))
+        b = self.guarded(z3.Not(c), lambda: self.ev(node.orelse, fr))
         return self.merge_val(c, a, b)
 
     def ev_BinOp(self, node, fr):
@@ -744,19 +744,34 @@ class Exec:
 
     # ---- quantifiers in spec expressions
     def quantify(self, gen, fr, universal):
-        """all(...) / any(...) over a generator with range() iterables."""
+        """all(...) / any(...) over a generator with range() iterables.  Literal ranges of at most
+        16 values are expanded; chains of symbolic binders become one quantifier; `trigger(...)`
+        calls in the body become its explicit pattern."""
         if not isinstance(gen, ast.GeneratorExp):
             raise Unsupported("all/any needs a generator")
         env = dict(fr.env)
         sub = Frame(fr.fi, fr.module, env, spec=fr.spec, cls=fr.cls)
-        bound = []
-        guards = []
-        expand = []      # (name, lo, hi) concrete small ranges -> expanded
+        self.quant_depth = getattr(self, "quant_depth", 0) + 1
+        if not hasattr(self, "quant_triggers"):
+            self.quant_triggers = []
 
-        def rec(idx):
-            if idx == len(gen.generators):
-                body = self.truth(self.ev(gen.elt, sub))
+        def close(vs, conds, body, trigs):
+            if not vs:
                 return body
+            if universal:
+                f = z3.Implies(z3.And(*conds), body)
+                if trigs:
+                    return z3.ForAll(vs, f, patterns=[z3.MultiPattern(*trigs) if len(trigs) > 1 else trigs[0]])
+                return z3.ForAll(vs, f)
+            return z3.Exists(vs, z3.And(*(conds + [body])))
+
+        def rec(idx, vs, conds):
+            if idx == len(gen.generators):
+                base = len(self.quant_triggers)
+                body = self.truth(self.ev(gen.elt, sub))
+                trigs = self.quant_triggers[base:]
+                del self.quant_triggers[base:]
+                return close(vs, conds, body, trigs)
             comp = gen.generators[idx]
             if not isinstance(comp.target, ast.Name):
                 raise Unsupported("quantifier target")
@@ -770,23 +785,25 @@ class Exec:
                 parts = []
                 for val in range(clo, chi):
                     env[name] = I(val)
-                    conds = [self.truth(self.ev(c, sub)) for c in comp.ifs]
-                    inner = rec(idx + 1)
+                    cs = [self.truth(self.ev(c, sub)) for c in comp.ifs]
+                    inner = rec(idx + 1, [], [])
                     if universal:
-                        parts.append(z3.Implies(z3.And(*conds), inner) if conds else inner)
+                        parts.append(z3.Implies(z3.And(*cs), inner) if cs else inner)
                     else:
-                        parts.append(z3.And(*(conds + [inner])))
+                        parts.append(z3.And(*(cs + [inner])))
                 if universal:
-                    return z3.And(*parts) if parts else z3.BoolVal(True)
-                return z3.Or(*parts) if parts else z3.BoolVal(False)
+                    ex = z3.And(*parts) if parts else z3.BoolVal(True)
+                else:
+                    ex = z3.Or(*parts) if parts else z3.BoolVal(False)
+                return close(vs, conds, ex, [])
             v = z3.Int(f"{name}!b{next(self.counter)}")
             env[name] = v
-            conds = [lo <= v, v < hi] + [self.truth(self.ev(c, sub)) for c in comp.ifs]
-            inner = rec(idx + 1)
-            if universal:
-                return z3.ForAll([v], z3.Implies(z3.And(*conds), inner))
-            return z3.Exists([v], z3.And(*(conds + [inner])))
-        return simp(rec(0))
+            cs = [lo <= v, v < hi] + [self.truth(self.ev(c, sub)) for c in comp.ifs]
+            return rec(idx + 1, vs + [v], conds + cs)
+        try:
+            return simp(rec(0, [], []))
+        finally:
+            self.quant_depth -= 1
 
     # ------------------------------------------------------------ calls
     def ev_Call(self, node, fr):
@@ -885,10 +902,13 @@ class Exec:
             if depth[0] > 12:
                 raise Unsupported("inline depth")
             sub = Frame(fi, fi.module, env, spec=fr.spec)
+            self.frames.append(sub)
             try:
                 self.exec_block(fi.body(), sub)
             except ReturnSig as r:
                 return r.value
+            finally:
+                self.frames.pop()
             return NONE
         finally:
             depth[0] -= 1
@@ -913,16 +933,8 @@ class Exec:
                     return self.spec_block(list(s.orelse) + rest, fr)
                 f1 = Frame(fr.fi, fr.module, dict(fr.env), spec=True, cls=fr.cls)
                 f2 = Frame(fr.fi, fr.module, dict(fr.env), spec=True, cls=fr.cls)
-                self.pc.append(c)
-                try:
-                    v1 = self.spec_block(list(s.body) + rest, f1)
-                finally:
-                    self.pc.pop()
-                self.pc.append(z3.Not(c))
-                try:
-                    v2 = self.spec_block(list(s.orelse) + rest, f2)
-                finally:
-                    self.pc.pop()
+                v1 = self.guarded(c, lambda: self.spec_block(list(s.body) + rest, f1))
+                v2 = self.guarded(z3.Not(c), lambda: self.spec_block(list(s.orelse) + rest, f2))
                 if v1 is None or v2 is None:
                     raise Unsupported("spec function path without return")
                 return self.merge_val(c, v1, v2)
@@ -990,6 +1002,15 @@ class Exec:
             if len(args) == 2:
                 return RangeV(self.as_int(args[0]), self.as_int(args[1]))
             raise Unsupported("range step")
+        if n == "trigger" or n == "pyvc.api.trigger":
+            f = z3.Function(f"TRG{len(args)}", *([INT] * len(args) + [BOOL]))
+            t = f(*[self.as_int(a) for a in args])
+            if getattr(self, "quant_depth", 0) > 0:
+                self.quant_triggers.append(t)
+            else:
+                # sound: every contract is proved for all interpretations of TRG, in particular TRG = true
+                self.pc.append(t)
+            return t
         if n == "implies":
             return simp(z3.Implies(self.truth(args[0]), self.truth(args[1])))
         if n == "cast":
@@ -1057,6 +1078,11 @@ class Exec:
             raise Unsupported("isinstance")
         if n == "object.__init__":
             return NONE
+        if n == "pyvc.api.ghost_copy":
+            sq = self.seq(args[0])
+            if sq is None:
+                raise Unsupported("ghost_copy of non-sequence")
+            return self.alloc(SeqV(sq.kind, sq.get, sq.n, sq.lit))
         if n.startswith("seq."):
             return self.seq_method(n[4:], f.recv, args, kwargs, fr, node)
         ext = self.reg.external(n)
@@ -1281,7 +1307,7 @@ class Exec:
                 self.pc = base_pc + [z3.Implies(c, p) for p in pc1] + [z3.Implies(z3.Not(c), p) for p in pc2]
                 self.heap = {}
                 # merge heaps first (ids allocated in only one arm are kept as is)
-                for k in set(heap1) | set(heap2):
+                for k in sorted(set(heap1) | set(heap2)):
                     a, b = heap1.get(k), heap2.get(k)
                     if a is None or b is None:
                         self.heap[k] = a if a is not None else b
@@ -1289,18 +1315,18 @@ class Exec:
                         self.heap[k] = self.merge_seq(c, a, b)
                     else:
                         self.heap[k] = a      # fields merged below
-                for k in set(heap1) & set(heap2):
+                for k in sorted(set(heap1) & set(heap2)):
                     a, b = heap1[k], heap2[k]
                     if isinstance(a, ObjV):
                         flds = {}
-                        for fn in set(a.fields) | set(b.fields):
+                        for fn in sorted(set(a.fields) | set(b.fields)):
                             if fn in a.fields and fn in b.fields:
                                 flds[fn] = self.merge_val(c, a.fields[fn], b.fields[fn])
                             else:
                                 raise Unsupported("field defined in one arm only")
                         self.heap[k] = ObjV(a.cls, flds)
                 env = {}
-                for k in set(env1) | set(env2):
+                for k in sorted(set(env1) | set(env2)):
                     if k in env1 and k in env2:
                         env[k] = self.merge_val(c, env1[k], env2[k])
                     # a name bound in one arm only is dropped: reading it later is an error of the code
@@ -1430,6 +1456,64 @@ class Exec:
                 nsq = SeqV(nsq.kind, nsq.get, sq.n, arr=nsq.arr)
             self.heap[ref.id] = nsq
 
+    # ---- "havoc and forget": facts about pre-havoc versions of modified state are dropped at a
+    # loop head (sound: fewer assumptions; the invariant has to be self-contained anyway)
+    def consts_of(self, t, acc, seen):
+        if t.get_id() in seen:
+            return
+        seen.add(t.get_id())
+        if z3.is_quantifier(t):
+            self.consts_of(t.body(), acc, seen)
+            return
+        if z3.is_app(t):
+            if t.num_args() == 0 and t.decl().kind() == z3.Z3_OP_UNINTERPRETED:
+                acc.add(t.decl().name())
+            for ch in t.children():
+                self.consts_of(ch, acc, seen)
+
+    def syms_of_val(self, v, acc, seen, seen_refs):
+        if isinstance(v, z3.ExprRef):
+            self.consts_of(v, acc, seen)
+        elif isinstance(v, Ref):
+            if v.id in seen_refs:
+                return
+            seen_refs.add(v.id)
+            o = self.heap.get(v.id)
+            if isinstance(o, SeqV):
+                self.syms_of_val(o, acc, seen, seen_refs)
+            elif isinstance(o, ObjV):
+                for fv in o.fields.values():
+                    self.syms_of_val(fv, acc, seen, seen_refs)
+        elif isinstance(v, SeqV):
+            k = z3.Int("k!sym")
+            self.consts_of(v.get(k), acc, seen)
+            self.consts_of(v.n if isinstance(v.n, z3.ExprRef) else I(v.n), acc, seen)
+        elif isinstance(v, TupleV):
+            for x in v.items:
+                self.syms_of_val(x, acc, seen, seen_refs)
+
+    def live_symbols(self, fr):
+        acc, seen, seen_refs = set(), set(), set()
+        for f in self.frames + [fr]:
+            for v in f.env.values():
+                self.syms_of_val(v, acc, seen, seen_refs)
+        for v in self.entry_scope.values():
+            self.syms_of_val(v, acc, seen, seen_refs)
+        return acc
+
+    def forget_dead(self, before, fr):
+        dead = before - self.live_symbols(fr)
+        dead.discard("k!sym")
+        if not dead:
+            return
+        keep = []
+        for f in self.pc:
+            acc = set()
+            self.consts_of(f, acc, set())
+            if not (acc & dead):
+                keep.append(f)
+        self.pc = keep
+
     def loop_spec(self, fr, node):
         con = self.reg.contract_for_frame(fr)
         if con is None:
@@ -1463,7 +1547,12 @@ class Exec:
             names |= set(pre_bind)
         self.check_invariants(spec, ordn, fr, "inv-init")
         k = self.choose(2)
+        before = self.live_symbols(fr)
         self.havoc_loop(names - set(pre_bind or ()), objs, elem_only, fr)
+        if pre_bind:
+            for nm, mk in pre_bind.items():
+                fr.env.pop(nm, None)
+        self.forget_dead(before, fr)
         if pre_bind:
             for nm, mk in pre_bind.items():
                 fr.env[nm] = mk()
@@ -1490,6 +1579,13 @@ class Exec:
         self.assume(z3.Not(c))
         if not self.feasible():
             raise PathEnd()
+        # optional proof hints at loop exit: each is proved from (invariant and not cond), then assumed
+        if spec is not None and spec.get("exit"):
+            con = spec["contract"]
+            for idx, (clause, cfr) in enumerate(self.reg.loop_clauses(self, dict(spec, inv=spec["exit"]), fr)):
+                t = self.truth(self.ev(clause, cfr))
+                self.oblige("loop-exit-hint", t, f"loop{ordn}[{idx}]", {"clause": ast.unparse(clause)})
+                self.assume(t)
 
     def st_For(self, s, fr):
         if s.orelse:
